@@ -60,6 +60,7 @@ type decompressor struct {
 	err           error
 	peekSize      int
 	eof           bool
+	outputFull    bool // the last decode pass ended on a full output window
 }
 
 func (r *decompressor) Reset(under io.Reader, _ []byte) error {
@@ -79,6 +80,7 @@ func (r *decompressor) Reset(under io.Reader, _ []byte) error {
 	r.err = nil
 	r.writePos = 0
 	r.readPos = 0
+	r.outputFull = false
 	r.state.reset()
 	return nil
 }
@@ -127,16 +129,24 @@ func (f *decompressor) step() (err error) {
 		// full buffer, and report a source error only once all data delivered
 		// before it has been used.
 		held := int(f.state.bitsLen / 8)
-		state.input, err = f.rBuf.Peek(held + 1)
-		if len(state.input) > held {
-			state.input, err = f.rBuf.Peek(f.rBuf.Buffered())
+		if f.outputFull {
+			// The last pass stopped because the output window was full, not
+			// for lack of input: carry on with what the bit buffer still
+			// holds before asking the source for more.
+			state.input = f.historyBuffer[:0]
+			f.peekSize = held
+		} else {
+			state.input, err = f.rBuf.Peek(held + 1)
+			if len(state.input) > held {
+				state.input, err = f.rBuf.Peek(f.rBuf.Buffered())
+			}
+			f.peekSize = len(state.input)
+			if err != nil && err != bufio.ErrBufferFull && err != io.EOF {
+				return err
+			}
+			f.eof = err == io.EOF
+			state.input = state.input[held:]
 		}
-		f.peekSize = len(state.input)
-		if err != nil && err != bufio.ErrBufferFull && err != io.EOF {
-			return err
-		}
-		f.eof = err == io.EOF
-		state.input = state.input[held:]
 	}
 	f.readPos = f.writePos
 
@@ -149,6 +159,7 @@ func (f *decompressor) step() (err error) {
 
 	startInputSize, startBitsLen := len(f.state.input), int(f.state.bitsLen)
 	err = f.decomperss()
+	f.outputFull = err == errOutputOverflow
 	f.state.rOffset(startInputSize, startBitsLen)
 
 	if isError(err) || (err == errEndInput && f.eof) {
